@@ -160,6 +160,65 @@ func TestC20(t *testing.T) {
 				}
 			}
 			rec.Add("keys_round_tripped", int64(len(seen)))
+			// fresh cipher instances: a cipher is a function of the licence, so a string produced by one instance (the issuing
+			// broker) must decrypt to the same key on any other instance (the broker after a restart, another broker of the
+			// cluster), whatever each instance has processed before - short op sequences on instances created for the purpose,
+			// salts from the edge set first (a zero salt as the very first operation of an instance, then another salt, ...)
+			edgeSalts := []uint16{0, 1, 2, 0x00ff, 0x0100, 0x7fff, 0x8000, 0xffff}
+			for q := 0; q < vk.N(120, 4000); q++ {
+				caseNo++
+				if !vk.Mine(caseNo) {
+					continue
+				}
+				ca, ea := lic.Cipher()
+				cb, eb := back.Cipher()
+				if ea != nil || eb != nil {
+					break
+				}
+				type issuedKey struct {
+					k   security.Key
+					s   string
+					who int
+				}
+				var issuedKeys []issuedKey
+				var ops []string
+				bad := ""
+				nops := 3 + r.Intn(5)
+				for o := 0; o < nops && bad == ""; o++ {
+					inst, ci2 := ca, 0
+					if r.Chance(40) {
+						inst, ci2 = cb, 1
+					}
+					if len(issuedKeys) == 0 || r.Chance(50) {
+						k := security.Key(r.Bytes(24))
+						if o < 2 || r.Chance(50) {
+							k.SetSalt(edgeSalts[(q+o*3)%len(edgeSalts)])
+						}
+						if o == 0 && q%3 == 0 {
+							k.SetSalt(0)
+						}
+						e, err := inst.EncryptKey(k)
+						ops = append(ops, fmt.Sprintf("instance %d encrypts a key with salt %#04x -> %s", ci2, k.Salt(), e))
+						if err != nil || len(e) != 32 {
+							bad = fmt.Sprintf("EncryptKey: %v (%q)", err, e)
+							break
+						}
+						issuedKeys = append(issuedKeys, issuedKey{append(security.Key(nil), k...), e, ci2})
+						continue
+					}
+					ik := issuedKeys[r.Intn(len(issuedKeys))]
+					d, err, pan := decrypt(inst, ik.s)
+					ops = append(ops, fmt.Sprintf("instance %d decrypts %s (issued by instance %d, salt %#04x)", ci2, ik.s, ik.who, ik.k.Salt()))
+					if err != nil || pan != "" || !bytes.Equal(d, ik.k) {
+						bad = fmt.Sprintf("instance %d decrypts %s to %x (err %v), the key that was encrypted is %x", ci2, ik.s, []byte(d), err, []byte(ik.k))
+					}
+				}
+				rec.Case(vk.Hash("fresh", v, li, q, strings.Join(ops, ";")), true)
+				rec.Inc("fresh_instance_sequences")
+				if bad != "" {
+					rec.Violation(caseNo, fmt.Sprintf("key-roundtrip-across-instances/v%d", v), fmt.Sprintf("licence v%d, two fresh cipher instances of one licence: %s", v, bad), map[string]interface{}{"ops": ops})
+				}
+			}
 			// candidate key strings that must be rejected
 			valid, _ := c1.EncryptKey(security.Key(r.Bytes(24)))
 			for l := 0; l <= 40; l++ {
